@@ -70,7 +70,7 @@ def site_wxml(kind, e):
     if kind == 'if':
         return '<view wx:if="{{ %s }}">x</view>' % t
     if kind == 'for':
-        return '<view wx:for="{{ %s }}" wx:for-item="it9" wx:for-index="ix9">y</view>' % t
+        return '<view wx:for="{{ %s }}" wx:for-item="it9" wx:for-index="ix9" q9="{{ it9 }}">y</view>' % t
     if kind == 'slotname':
         return '<slot name="{{ %s }}"/>' % t
     if kind == 'tmpldata':
@@ -89,11 +89,11 @@ def programs(tier, seed):
         for k in kinds:
             if k == 'model' and guards.chain_of(e) is None:
                 continue
-            progs.append({'wxml': site_wxml(k, e) + '<template name="t9"><view b="{{p9}}"/></template>', 'kind': k, 'expr': e, 'scopes': []})
+            progs.append({'wxml': site_wxml(k, e) + '<template name="t9"><view b="{{p9}}" c="{{p9.k}}"/></template>', 'kind': k, 'expr': e, 'scopes': []})
     # inside one wx:for (item / index visible), and nested
     for e in exprs(tier, ('item', 'index')):
         for k in (['attr', 'text', 'if', 'for', 'tmpldata'] if tier == 'thorough' else ['attr', rnd.choice(['text', 'if', 'for', 'class'])]):
-            progs.append({'wxml': '<block wx:for="{{list}}">' + site_wxml(k, e) + '</block><template name="t9"><view b="{{p9}}"/></template>',
+            progs.append({'wxml': '<block wx:for="{{list}}">' + site_wxml(k, e) + '</block><template name="t9"><view b="{{p9}}" c="{{p9.k}}"/></template>',
                           'kind': k, 'expr': e, 'scopes': ['for']})
     for e in exprs('quick', ('item', 'j2'))[:26:2] + exprs('quick', ('item', 'j2'))[20:]:
         progs.append({'wxml': '<block wx:for="{{list}}"><block wx:for="{{item.sub}}" wx:for-item="j2" wx:for-index="k2">' + site_wxml('attr', e) + '</block></block>',
@@ -104,7 +104,7 @@ def programs(tier, seed):
                ('mem', ('call', ('id', 'f9'), []), 'k'), ('bin', '??', ('id', 'list'), Y9)]:
         for e in [('mem', ('id', 'item'), 'k'), ('id', 'item'), ('bin', '+', ('id', 'index'), ('mem', ('id', 'item'), 'k'))]:
             for k in ('attr', 'text'):
-                progs.append({'wxml': '<block wx:for="{{ %s }}">%s</block><template name="t9"><view b="{{p9}}"/></template>' % (esc(M.pr(le)), site_wxml(k, e)),
+                progs.append({'wxml': '<block wx:for="{{ %s }}">%s</block><template name="t9"><view b="{{p9}}" c="{{p9.k}}"/></template>' % (esc(M.pr(le)), site_wxml(k, e)),
                               'kind': k, 'expr': e, 'scopes': ['for']})
     # placements: every site kind nested among static parents / siblings (depth 2 and 3), in component content, blocks and branches
     placements = ['<view bind:tap="h">%s</view>', '<view><text>static</text>%s<view class="s"/></view>',
@@ -115,7 +115,7 @@ def programs(tier, seed):
             if k == 'model' and guards.chain_of(e) is None:
                 continue
             for pl in (placements if tier == 'thorough' or k in ('data', 'attr', 'text') else rnd.sample(placements, 3)):
-                progs.append({'wxml': pl % site_wxml(k, e) + '<template name="t9"><view b="{{p9}}"/></template>', 'kind': k, 'expr': e, 'scopes': []})
+                progs.append({'wxml': pl % site_wxml(k, e) + '<template name="t9"><view b="{{p9}}" c="{{p9.k}}"/></template>', 'kind': k, 'expr': e, 'scopes': []})
     # slot values as scopes
     for e in [('id', 'sv'), ('mem', ('id', 'sv'), 'k'), ('bin', '+', ('id', 'sv'), A), ('idx', A, ('id', 'sv'))]:
         progs.append({'wxml': '<comp><view slot:sv a="{{ %s }}"/></comp>' % esc(M.pr(e)), 'kind': 'attr', 'expr': e, 'scopes': ['slot']})
@@ -336,6 +336,12 @@ def site_obligations(rt, root, p):
             t = n.tree
             K = U == guards.TRUE_V
             out.append(('wx:for list tree', z3.And(hyp, z3.Not(K)), tb(it.truthy(t)), extra))
+            if guards.chain_of(e) is None and e[0] not in ('cond', 'arr', 'obj'):
+                # (conditionals and array / object literals have trees of their own: per branch, per element, per key)
+                # a computed list has no update tree of its own: a sub-tree of one of its dependencies must not be handed on as if it
+                # described the items (the runtime looks the item trees up in it) - the whole list counts as changed
+                out.append(('wx:for list tree of a computed list (must be `true`, not a dependency\'s sub-tree)', z3.And(hyp, z3.Not(K)),
+                            tb(it.truthy(it.binary('===', t, True))), extra))
         return out
     if kind == 'slotname':
         for n in driver.walk(root):
@@ -355,6 +361,9 @@ def site_obligations(rt, root, p):
             entry = it.member(usub, 'p9') if not isinstance(usub, bool) else UNDEFINED
             g = z3.Or(tb(whole), tb(it.truthy(entry)))
             out.append(('template data tree for field p9', hyp, g, extra))
+            if guards.chain_of(e) is None and e[0] not in ('cond', 'arr', 'obj') and not isinstance(usub, bool):
+                g2 = z3.Or(tb(whole), tb(it.truthy(it.binary('===', entry, True))))
+                out.append(('template data tree for a computed field (must be `true`, not a dependency\'s sub-tree)', hyp, g2, extra))
         return out
     return out
 
